@@ -1019,3 +1019,107 @@ func negotiateExtensionsRules(c *Ctx, prop string) {
 	c.R.AddCells(len(paths))
 	c.verdict(rule, rule+"/negotiateExtensions", c.P.FuncPos(f), uniq(problems), fmt.Sprintf("%d paths", len(paths)))
 }
+
+// nonceRules folds ws.initNonce: the Sec-WebSocket-Key is the base64 encoding
+// of 16 bytes each of which comes from the random source - every byte its own
+// draw (no byte constant, none a copy of another).
+func nonceRules(c *Ctx, prop string) {
+	rule := prop + ".nonce-randomness"
+	c.R.Rule(rule, 1, "initNonce encodes 16 bytes that all come from the random source")
+	f := c.fn(rule, ws, "initNonce")
+	if f == nil {
+		return
+	}
+	m := c.machine()
+	addBinaryModels(m)
+	draws := 0
+	fill := func(cl *fold.Call, idx int) fold.Val {
+		if s, ok := cl.Args[idx].(fold.SliceV); ok {
+			draws++
+			for i := int64(0); i < s.Len; i++ {
+				cl.M.SetElem(s, i, fold.Int{Lo: 0, Hi: 255, Name: fmt.Sprintf("rnd%d.%d", draws, i)})
+			}
+			return fold.Tuple{fold.K(s.Len), errChoice(cl.M, "rand.err", "rand-error")}
+		}
+		return fold.Tuple{fold.K(0), fold.Sym{Name: "rand-error", NonNil: true}}
+	}
+	m.Models["math/rand.Read"] = func(cl *fold.Call) fold.Val { return fill(cl, 0) }
+	m.Models["crypto/rand.Read"] = func(cl *fold.Call) fold.Val { return fill(cl, 0) }
+	m.Models["io.ReadFull"] = func(cl *fold.Call) fold.Val { return fill(cl, 1) }
+	word := func(bytes int) fold.Model {
+		return func(cl *fold.Call) fold.Val {
+			draws++
+			lanes := make([]string, bytes)
+			for i := range lanes {
+				lanes[i] = fmt.Sprintf("rnd%d.%d", draws, i)
+			}
+			v := fold.Int{Top: bytes == 8, Lo: 0, Hi: 1<<uint(8*bytes) - 1, Name: fmt.Sprintf("rnd%d", draws), L: lanes}
+			if bytes == 8 {
+				v.Lo, v.Hi = 0, 0
+			}
+			return v
+		}
+	}
+	for _, pk := range []string{"math/rand", "math/rand/v2"} {
+		m.Models[pk+".Uint64"] = word(8)
+		m.Models[pk+".Int63"] = word(8)
+		m.Models[pk+".Uint32"] = word(4)
+		m.Models[pk+".Int31"] = word(4)
+	}
+	m.Models["fmt.Sprintf"] = func(cl *fold.Call) fold.Val { return fold.Str("rand read error") }
+	var src []string
+	encodes := 0
+	m.Models["(*encoding/base64.Encoding).Encode"] = func(cl *fold.Call) fold.Val {
+		encodes++
+		if s, ok := cl.Args[2].(fold.SliceV); ok {
+			src = laneNamesPlain(cl.M.Elems(s))
+		} else {
+			src = []string{"?" + fold.Show(cl.Args[2])}
+		}
+		dst := "?"
+		if d, ok := cl.Args[1].(fold.SliceV); ok {
+			dst = d.O.Name
+		}
+		cl.M.Emit(fold.Effect{Kind: "call", Name: "base64", Args: []fold.Val{fold.Str(dst)}})
+		return nil
+	}
+	var problems []string
+	paths := m.Explore(f, func(mm *fold.Machine) []fold.Val {
+		draws, encodes, src = 0, 0, nil
+		el := make([]fold.Val, 24)
+		for i := range el {
+			el[i] = fold.K(0)
+		}
+		return []fold.Val{mm.NewBytes("nonce", el)}
+	}, func(mm *fold.Machine, p *fold.Path) {
+		if p.Chose("rand.err") > 0 {
+			return // the random source failed: initNonce panics, nothing is sent
+		}
+		if encodes != 1 {
+			problems = append(problems, fmt.Sprintf("the key is base64-encoded %d times", encodes))
+			return
+		}
+		if len(src) != 16 {
+			problems = append(problems, fmt.Sprintf("the key is made from %d bytes, RFC 6455 4.1 asks for 16", len(src)))
+			return
+		}
+		seen := map[string]bool{}
+		for i, n := range src {
+			if !strings.HasPrefix(n, "rnd") {
+				problems = append(problems, fmt.Sprintf("byte %d of the key is %s, not a random byte: the key is no longer 16 random bytes", i, n))
+				return
+			}
+			if seen[n] {
+				problems = append(problems, fmt.Sprintf("byte %d of the key repeats the random byte %s", i, n))
+				return
+			}
+			seen[n] = true
+		}
+	})
+	for _, p := range paths {
+		if p.Abort != "" {
+			problems = append(problems, "undecided: "+p.Abort)
+		}
+	}
+	c.verdict(rule, rule+"/initNonce", c.P.FuncPos(f), uniq(problems), "16 distinct random bytes are encoded into the caller's buffer")
+}
